@@ -77,7 +77,7 @@ let line l =
              let unmet =
                (if SsaCheck.infos_ok infos c then [] else ["infos-not-ok"])
                @ (if DegLoops.targets_versioned c then [] else ["targets-not-versioned"])
-               @ (if DegLoops.update_bases_fresh c then [] else ["update-base-assigned"])
+               @ (if DegLoops.update_bases_fresh infos c then [] else ["update-base-assigned"])
                @ (if DegLoops.no_future_version infos c then [] else ["future-version"]) in
              if unmet = [] then (if DegLoops.loops_ok infos c then "(loops-ok)" else "(loops-hyp loops_ok-false)")
              else "(loops-hyp " ^ Stdlib.String.concat " " unmet ^ ")" in
@@ -111,7 +111,15 @@ let line l =
           evaluated on the REAL graph) *)
        else if not (SsaCheck.unversioned_reads_ok (SsaDecls.with_stmt_decls c)) then "(unversioned-local-read-by-declaration-statements)"
        else if not (SsaDecls.versions_stmt_declared c) then "(version-without-declaration-statement)"
-       else "(valid)"
+       (* fourth audit: graphs that ssa_check accepts although they violate the text of C14 (Model.SsaStrict;
+          meaning: Proofs.SsaStrictProofs, C14_phi_arguments_arrive, C14_read_defined_or_fresh_on_every_path) *)
+       else (match SsaStrict.ssa_strict c idom with
+             | SsaStrict.StrictOk -> "(valid)"
+             | SsaStrict.NoMaps -> "(invalid)"
+             | SsaStrict.BadPhiArgs -> "(phi-argument-arrives-from-no-predecessor)"
+             | SsaStrict.BadFreshBase -> "(update-base-without-running-version-is-defined-by-a-statement)"
+             | SsaStrict.LocalUnversioned -> "(local-without-version)"
+             | SsaStrict.BadTable -> "(declaration-table-differs-from-statements-and-parameters)")
      | _ -> "(badline)")
   | "ssapre" ->
     (* ssapre (cfg before SSA) (dominfo (frontier ..) (children ..)) : the hypotheses of the construction theorems *)
